@@ -340,6 +340,48 @@ func ruleEnv(c *Ctx) {
 					"a control variable is appended to cmd.Env before the inherited host environment, so a host value of the same name would win (later duplicates win)", nil)
 			}
 		}
+		// O5b: the environment is complete when the runner is created from cmd. A
+		// custom runner may copy cmd.Env when it is constructed (a container
+		// runner does), so anything appended later never reaches the plugin.
+		{
+			var ctors []*Node
+			for _, m := range g.Nodes {
+				if m.Ast == nil {
+					continue
+				}
+				for _, call := range callsIn(m.Ast) {
+					t := info.TypeOf(call)
+					if t == nil {
+						continue
+					}
+					if tup, isT := t.(*types.Tuple); isT && tup.Len() == 2 && strings.HasSuffix(tup.At(0).Type().String(), "/runner.Runner") {
+						ctors = append(ctors, m)
+					} else if strings.HasSuffix(t.String(), "cmdrunner.CmdRunner") {
+						ctors = append(ctors, m)
+					}
+				}
+			}
+			late := false
+			all := append([]*Node{hostNode}, ctrl...)
+			for _, ct := range ctors {
+				after := g.ReachAfter(ct, nil, nil)
+				for _, en := range all {
+					if en == nil {
+						continue
+					}
+					if _, r := after[en]; r {
+						late = true
+						c.R.Violate("R-ORDER/O5", p.Pos(en.Ast), f.Name, "environment complete before the runner is created",
+							"this append to cmd.Env can execute after the runner was created from cmd: a runner that reads the command's environment when it is constructed (a custom RunnerFunc may) never sees the variable, so the plugin is launched without it (for PLUGIN_CLIENT_CERT: the plugin serves plaintext while the host dials TLS)", nil)
+					}
+				}
+			}
+			if len(ctors) == 0 {
+				c.R.Undecided("R-ORDER/O5", f.Name, "environment complete before the runner is created", "no runner construction (RunnerFunc / NewCmdRunner) found in Start")
+			} else if !late {
+				c.R.Hold("R-ORDER/O5", p.Pos(ctors[0].Ast), f.Name, "environment complete before the runner is created", fmt.Sprintf("no cmd.Env append is reachable from any of the %d runner construction sites", len(ctors)), true)
+			}
+		}
 		if envSpliceNode == nil {
 			c.R.Violate("R-TABLE/env", p.Pos(f.Node()), f.Name, "control variables reach cmd.Env", "the control-variable slice is never appended to cmd.Env", nil)
 		} else if !bad {
